@@ -444,11 +444,12 @@ def r5_abort(ctx):
     # the polling loop of a worker ends when the producer is through, however the producer ended: its exit decision reads
     # the producer's completion (the future / an Event set in a `finally`), not only what the producer managed to queue
     n_poll = 0
+    queues = {t.id for a in walk_local(snap.node) if isinstance(a, ast.Assign) and isinstance(a.value, ast.Call) and (dotted(a.value.func) or '').endswith('Queue') for t in a.targets if isinstance(t, ast.Name)}
     for w in snap.nested.values():
         if not w.is_async:
             continue
         for lp in [l for l in walk_local(w.node) if isinstance(l, ast.While)]:
-            polls = [c for c in calls_in(lp) if isinstance(c.func, ast.Attribute) and c.func.attr in ('get_nowait', 'get') and isinstance(c.func.value, ast.Name) and 'queue' in c.func.value.id.lower()]
+            polls = [c for c in calls_in(lp) if isinstance(c.func, ast.Attribute) and c.func.attr in ('get_nowait', 'get') and isinstance(c.func.value, ast.Name) and c.func.value.id in queues]
             if not polls:
                 continue
             n_poll += 1
